@@ -106,7 +106,7 @@ def gen_case(ctx, idx, stream='case'):
         c['rows'], c['cols'] = c['rows'] + 7, c['cols'] + 7       # pyjpegls cannot encode tiny frames
     c['workers'] = 0
     if c['ts'] not in NATIVE and r.random() < (0.12 if ctx.tier == 'thorough' else 0.04):
-        c['workers'] = r.choice([2, 'executor'])
+        c['workers'] = r.choice([2, 'executor'] + ([-1] if ctx.tier == 'thorough' else []))
     elif c['ts'] in NATIVE and r.random() < 0.02:
         c['workers'] = 'executor'          # has no effect for native syntaxes (a warning), must not change anything
     c['bad'] = None
@@ -123,6 +123,14 @@ def gen_case(ctx, idx, stream='case'):
     if u < 0.15 and applicable:
         c['bad'] = r.choice(applicable)
     c['read_perm_seed'] = r.randrange(1 << 30)
+    # memory layout of the user's array: the same values behind different strides / flags
+    c['mem'] = r.choice(['C', 'C', 'C', 'C', 'F', 'T', 'T', 'neg', 'strided', 'readonly', 'slice4'])
+    # geometry of the sources (the mask must stay attached to the right source whatever the stacking direction)
+    c['orientation'] = r.choice([[1, 0, 0, 0, 1, 0]] * 3 + [[0, 1, 0, 0, 0, -1], [1, 0, 0, 0, 0, -1], [-1, 0, 0, 0, 1, 0],
+                                                            [0, 1, 0, 1, 0, 0], [0.6, 0.8, 0, -0.8, 0.6, 0]])
+    c['spacing'] = r.choice([1.0, 1.0, 2.5, 0.5, -1.0])
+    c['fractional_type'] = r.choice(['PROBABILITY', 'OCCUPANCY'])
+    c['ts_as_str'] = r.random() < 0.3
     return c
 
 
@@ -222,7 +230,40 @@ def build_mask(c):
         applied = b
     if c['layout'] == '2d':
         m = m[0]
+    m = _relayout(m, c.get('mem', 'C'))
     return m, applied
+
+
+def _relayout(m, mem):
+    """Same values, different memory layout: Fortran order, a transposed view (row stride < column stride, as
+    for an (x, y, z) volume turned into (slice, row, col) with .transpose()), negative strides, a strided view into
+    a larger buffer, a read-only array, a slice of an array with an extra trailing axis."""
+    r_ax, c_ax = (0, 1) if m.ndim == 2 else (1, 2)
+    if mem == 'F':
+        out = np.asfortranarray(m)
+    elif mem == 'T':
+        out = np.swapaxes(np.ascontiguousarray(np.swapaxes(m, r_ax, c_ax)), r_ax, c_ax)
+    elif mem == 'neg':
+        out = np.flip(np.ascontiguousarray(np.flip(m, c_ax)), c_ax)
+    elif mem == 'strided':
+        shape = list(m.shape)
+        shape[c_ax] *= 2
+        big = np.ones(shape, dtype=m.dtype)
+        idx = [slice(None)] * m.ndim
+        idx[c_ax] = slice(0, None, 2)
+        big[tuple(idx)] = m
+        out = big[tuple(idx)]
+    elif mem == 'readonly':
+        out = m.copy()
+        out.setflags(write=False)
+    elif mem == 'slice4':
+        big = np.ones(m.shape + (3,), dtype=m.dtype)
+        big[..., 1] = m
+        out = big[..., 1]
+    else:
+        out = m
+    assert out.shape == m.shape and np.array_equal(out, m)
+    return out
 
 
 def expected_raw(c, mask):
@@ -281,11 +322,12 @@ def must_refuse(c, mask):
 
 def build_sources(c):
     from gen.sources import ct_series, enhanced_multiframe, single_image_no_for
+    geo = dict(orientation=tuple(c.get('orientation', (1, 0, 0, 0, 1, 0))), slice_spacing=c.get('spacing', 1.0))
     if c['source'] == 'series':
-        src = ct_series(c['planes'], c['rows'], c['cols'], order=c['src_order'])
+        src = ct_series(c['planes'], c['rows'], c['cols'], order=c['src_order'], **geo)
         ids = [('inst', s.SOPInstanceUID) for s in src]
     elif c['source'] == 'enhanced':
-        e = enhanced_multiframe(c['planes'], c['rows'], c['cols'], order=c['src_order'])
+        e = enhanced_multiframe(c['planes'], c['rows'], c['cols'], order=c['src_order'], **geo)
         src = [e]
         ids = [('frame', i + 1) for i in range(c['planes'])]
     else:
@@ -323,7 +365,9 @@ def construct(c, src, mask):
         src, mask, c['type'], [seg_description(s) for s in c['segs']],
         series_instance_uid=hd.UID(), series_number=2, sop_instance_uid=hd.UID(), instance_number=1,
         manufacturer='verif', manufacturer_model_name='m', software_versions='1', device_serial_number='1',
-        max_fractional_value=c['mfv'], transfer_syntax_uid=_ts(c['ts']), omit_empty_frames=c['omit'], workers=w)
+        max_fractional_value=c['mfv'], fractional_type=c.get('fractional_type', 'PROBABILITY'),
+        transfer_syntax_uid=(str(_ts(c['ts'])) if c.get('ts_as_str') else _ts(c['ts'])),
+        omit_empty_frames=c['omit'], workers=w)
 
 
 def _err_kind(e):
@@ -374,7 +418,8 @@ def model_args(c, mask):
     else:
         planes = flat.astype(np.int64).tolist()
     # plane_sort_index as highdicom derives it for these sources: decreasing position along the slice normal
-    order = sorted(range(c['planes']), key=lambda k: -c['src_order'][k])
+    sign = 1 if c.get('spacing', 1.0) > 0 else -1
+    order = sorted(range(c['planes']), key=lambda k: -sign * c['src_order'][k])
     return {'kind': 'float' if isfloat else 'int', 'four': m.ndim == 4, 'planes': planes, 'rows': c['rows'], 'cols': c['cols'],
             'order': order,
             'type': c['type'], 'segs': c['segs'], 'mfv': c['mfv'], 'omit': c['omit'],
@@ -403,6 +448,7 @@ def run_case(ctx, c, reqs, pending, paths=('memory', 'eager', 'lazy')):
         kind = _err_kind(e)
     hist = dict(type=c['type'], layout=c['layout'], dtype=c['dtype'], source=c['source'], syntax=c['ts'], omit=c['omit'],
                 empty=c['empty'], residue=n % 8, small=n < 8, planes=P, segments=len(c['segs']), workers=c['workers'],
+                mem=c.get('mem', 'C'),
                 mfv=c['mfv'] if c['type'] == 'FRACTIONAL' else '-', bad=applied or '-',
                 outcome='ok' if seg is not None else 'refused')
     margs = model_args(c, keep)
@@ -454,6 +500,10 @@ def run_case(ctx, c, reqs, pending, paths=('memory', 'eager', 'lazy')):
             paths = tuple(paths) + ('eager-file', 'lazy-file')
         except Exception as e:  # noqa: BLE001
             ctx.fail(desc, f'save_as(path) failed: {type(e).__name__}: {e}'[:300], site='save_as')
+    if 'lazy' in paths and c['idx'] % 5 == 1:
+        paths = tuple(paths) + ('from_dataset', 'pickle', 'deepcopy')
+    if 'lazy' in paths and c['idx'] % 4 == 2:
+        paths = tuple(paths) + ('cached',)
     for path in paths:
         try:
             if path == 'memory':
@@ -462,6 +512,19 @@ def run_case(ctx, c, reqs, pending, paths=('memory', 'eager', 'lazy')):
                 objs[path] = hd.seg.segread(io.BytesIO(blob))
             elif blob is not None and path == 'lazy':
                 objs[path] = hd.seg.segread(io.BytesIO(blob), lazy_frame_retrieval=True)
+            elif blob is not None and path == 'from_dataset':
+                objs[path] = hd.seg.Segmentation.from_dataset(pydicom.dcmread(io.BytesIO(blob)), copy=bool(c['idx'] % 2))
+            elif path == 'pickle':
+                import pickle
+                objs[path] = pickle.loads(pickle.dumps(seg))
+            elif path == 'deepcopy':
+                import copy
+                objs[path] = copy.deepcopy(seg)
+            elif blob is not None and path == 'cached':
+                # pixel_array decoded and cached before the read: the array branch of _get_pixels_by_frame
+                o2 = hd.seg.segread(io.BytesIO(blob))
+                _ = o2.pixel_array
+                objs[path] = o2
             elif path == 'eager-file':
                 objs[path] = hd.seg.segread(fpath)
             elif path == 'lazy-file':
